@@ -39,9 +39,25 @@ RULE = ("weighted DAGs of 1..9 nodes (weights 0..5 forcing ties; 60% of the grap
         "recomputed on the model WITH THAT PATH and the whole segment (verdict, evaluated causaloids in order with their observations, activation of every causaloid) must be equal")
 
 
+def removed(run, d, bins, cases):
+    # shortest-path reasoning on graphs from which causaloids were REMOVED again (C11's removal phase, which issues such calls)
+    import props.c11 as c11
+    c11.removed_phase(run, d, bins, None)
+
+
 def main():
-    run_property("C10", PROPS, gen_cases, CHECKS, RULE, check_entry="c10_check_entry", model=False,
+    run_property("C10", PROPS, gen_cases, CHECKS, RULE + " SECOND PHASE: graphs from which causaloids were removed again (C11's removal phase): with both ends live and a path in the graph "
+                 "store exactly that path's causaloids are evaluated in order up to the first that is not true; an end that is not live, or no path, gives an error",
+                 check_entry="c10_check_entry", model=False, cross=removed,
                  extra_trusted=["petgraph astar not modelled: the returned path is validated per input (C15) and then fed to the model"])
 
 
-replay = mk_replay("C10", CHECKS, check_entry="c10_check_entry", model=False)
+_replay = mk_replay("C10", CHECKS, check_entry="c10_check_entry", model=False)
+
+
+def replay(path):
+    import json
+    if json.load(open(path)).get("case", {}).get("family") == "causalrm":
+        import props.c11 as c11
+        return c11.replay(path)
+    return _replay(path)
